@@ -1,4 +1,5 @@
 """Prototype (throw-away): C20 write -> parse round trip on q3's documents. usage: q20.py SEED N"""
+import os; os.makedirs("/tmp/probe", exist_ok=True)
 import io, math, sys
 import xml.etree.ElementTree as ET
 from collections import Counter
